@@ -138,6 +138,7 @@ func C08(c *core.Ctx) {
 	c.RuleText = "instances: entry-creation site × exits, csEntry=nil stores, PIT removal site, queue pops, counter updates, prune loops (three types), emptying stores in both FIB implementations. Non-trivial = has a path or operand set to decide."
 	p := c.P
 	defer c08Round4b(c)
+	defer c08FilledPathIsUsed(c)
 
 	// ---- R8.1
 	if pii := c.Fn("R8.1", "fw/fw", "Thread", "processIncomingInterest"); pii != nil {
@@ -1132,5 +1133,52 @@ func c08Round4b(c *core.Ctx) {
 		}
 		c.Decide(reaches(isRibSweep), "R8.9", "face-removal-withdraws-routes", p.Pos(rmf.Pos()), "Table.Remove reaches Rib.CleanUpFace", "the removal of a face does not withdraw its routes from the RIB")
 		c.Decide(reaches(isFibSweep), "R8.9", "face-removal-withdraws-fib-nexthops", p.Pos(rmf.Pos()), "Table.Remove reaches the removal of the face's next hops from the FIB", "the removal of a face cleans the RIB but not the FIB: next hops installed with fib/add-nexthop (no route stands for them) stay on the dead face id, with their FIB entries and tree / virtual nodes, for ever — face ids are not reused")
+	}
+}
+
+// c08FilledPathIsUsed — R8.11 "the name tree has no dead branches": InsertData makes the
+// nodes of the Data name (fillTreeToPrefixEnc) before it knows what it will do with them.
+// On every path from there to the return the node is occupied — it already holds a cache
+// entry, or one is stored into it — or handed to pruneIfEmpty. A branch that decides not to
+// cache after all (a capacity of zero, an admission policy) leaves the filled path behind:
+// empty nodes that no eviction will ever visit.
+func c08FilledPathIsUsed(c *core.Ctx) {
+	fn := c.Fn("R8.11", "fw/table", "PitCsTree", "InsertData")
+	if fn == nil {
+		return
+	}
+	fills := core.FindCalls(fn, core.CalleeID{Pkg: "fw/table", Recv: "pitCsTreeNode", Name: "fillTreeToPrefixEnc"})
+	c.Floor("R8.11", "calls that create the tree path of a Data name in InsertData", len(fills), 1)
+	occupied := &core.Atom{Name: "node.csEntry != nil", Match: func(cond ssa.Value) (int, int) {
+		op, x, y, ok := core.Cmp(cond)
+		if !ok || (op != token.EQL && op != token.NEQ) || !core.IsNilConst(y) {
+			return 0, 0
+		}
+		if _, okF := core.FieldOf(x, "csEntry"); !okF {
+			return 0, 0
+		}
+		return core.Iff(op == token.NEQ)
+	}}
+	cut, _ := core.CutEdges(fn, core.Lit{A: occupied, Want: true})
+	isUse := func(in ssa.Instruction) bool {
+		if st, ok := in.(*ssa.Store); ok {
+			if fa, okA := st.Addr.(*ssa.FieldAddr); okA {
+				if _, f := core.FieldAddrName(fa); f == "csEntry" && !core.IsNilConst(core.Strip(st.Val)) {
+					return true
+				}
+			}
+		}
+		if _, ok := core.IsCall(in, core.CalleeID{Pkg: "fw/table", Recv: "pitCsTreeNode", Name: "pruneIfEmpty"}); ok {
+			return true
+		}
+		return false
+	}
+	for i, fc := range fills {
+		fr := core.MustFollowCutDeep(fn, core.After(fc), isUse, nil, cut)
+		msg := ""
+		if fr.Exit != nil {
+			msg = "; exit at " + c.Pos(fr.Exit)
+		}
+		c.Decide(fr.OK, "R8.11", fmt.Sprintf("filled-path-is-occupied-or-pruned#%d", i), c.Pos(fc), "every path from the creation of the node to the return stores a cache entry into it, finds one there, or prunes it", "InsertData can return having created the tree nodes of the Data name without caching anything there and without pruning them"+msg+": empty nodes are left in the name tree for every such packet (no eviction ever visits them) — the tree grows without bound while PIT and CS are empty")
 	}
 }
